@@ -525,7 +525,7 @@ class RollbackStatus(object):
 
     def _from_rsp(self, rsp):
 
-        if rsp.completion_estimate:
+        if getattr(rsp, 'completion_estimate', None):
             self.percent_complete = rsp.completion_estimate
 
 
